@@ -34,22 +34,25 @@ def _jobs_store_family(oracles, family_untimed, family_timed, tier, stores_untim
             continue
         n = 3 if q else (3 if s == "RPRFS" else 4)
         jobs.append(m1(s, family_untimed, n, 2 if q else 3, oracles, 12 if q else 60))
+        # the same calls issued by two caller processes in turn (ownership checks, per-process look-ups)
+        jobs.append(m1(s, family_untimed, 2, 1 if q else 2, oracles, 8 if q else 40, PROCS=2, name=f"M1/{s}/{family_untimed}/N2-two-callers"))
     if q and "RPRFS" in stores_untimed:
         jobs.append(m1("RPRFS", family_untimed, 3, 0, oracles, 12, R2=0, RMAX=1, S=0, name=f"M1/RPRFS/{family_untimed}/N3K0-one-filtered"))
     for s in stores_timed:
         if q and s.startswith("FLEET"):
             # concrete fleet timing makes these cheap: richer shape
             jobs.append(m1(s, family_timed, 2, 2, oracles, 20, R2=1, USE=True, S=2))
-            jobs.append(m1(s, family_timed, 3, 0, oracles, 14, R2=2, USE=True, S=0, name=f"M1/{s}/{family_timed}/N3K0-use"))
+            jobs.append(m1(s, family_timed, 3, 0, oracles, 14, R2=2, USE=True, S=0, PROCS="both", name=f"M1/{s}/{family_timed}/N3K0-use"))
             continue
         if q:
             jobs.append(m1(s, family_timed, 2, 1, oracles, 20, R2=1, USE=False, S=1))
             if s.startswith("BUF") and family_timed != "space":
                 jobs.append(m1(s, family_timed, 3, 1, oracles, 14, R2=1, USE=False, TR=False, S=1, RMAX=3 if family_timed == "both" else 9))
-                jobs.append(m1(s, family_timed, 3, 0, oracles, 14, R2=2, USE=True, TR=False, S=0, name=f"M1/{s}/{family_timed}/N3K0-use"))
+                jobs.append(m1(s, family_timed, 3, 0, oracles, 14, R2=2, USE=True, TR=False, S=0, PROCS="both", name=f"M1/{s}/{family_timed}/N3K0-use"))
         else:
             jobs.append(m1(s, family_timed, 2, 2, oracles, 75, R2=1, USE=True))
             jobs.append(m1(s, family_timed, 3, 1, oracles, 75, R2=1, USE=True, TR=False))
+            jobs.append(m1(s, family_timed, 3, 1, oracles, 40, R2=2, USE=True, TR=False, S=0, PROCS=2, name=f"M1/{s}/{family_timed}/N3K1-two-callers"))
     for s in belts:
         if q:
             jobs.append(m1(s, family_timed, 2, 1, oracles, 10, R2=1, USE=False))
@@ -170,6 +173,9 @@ def _jobs_c07(tier):
         jobs.append(spec_job(f"M1/C07/{s}", "vfy.m1", "scenario_c07", 12 if q else 75, store=s, N=2, K=0 if q else 1, T=2 if q else 3))
     for s in ["BUF_FIFO", "BUF_LIFO", "FLEET", "SBELT_ACC", "CBELT_ACC", "CBELT_NOACC"]:
         jobs.append(spec_job(f"M1/C07/{s}", "vfy.m1", "scenario_c07", 14 if q else 75, store=s, N=1 if q else 2, K=0 if q else 1, T=2))
+        if q and s in ("BUF_FIFO", "FLEET"):
+            # two items, so that both caller processes can hold a granted retrieval while one of them misuses the other's token
+            jobs.append(spec_job(f"M1/C07/{s}/N2", "vfy.m1", "scenario_c07", 14, store=s, N=2, K=0, T=2))
     return jobs
 
 
@@ -262,6 +268,7 @@ def fan_cfgs(tier):
     C["fanin-fa-fleet"] = dict(n_src=2, n_out=1, n_items=2, w=1, in_kind="fleet", in_cap=2, sym=("iat",), same_iat=True, out_delay=0,
                                conv_kw=dict(fdelay=1, transit=0.5), until=12)
     C["fanin-fa"] = dict(n_src=2, n_out=1, n_items=2, w=1)
+    C["fanin3-fa"] = dict(n_src=3, n_out=1, n_items=2, w=1, sym=("iat",), out_delay=0)
     C["line-srcfa"] = dict(n_src=1, n_out=1, n_items=3, w=1, src_out_sel="FIRST_AVAILABLE")
     C["fanin-fa-srcfa"] = dict(n_src=2, n_out=1, n_items=2, w=1, src_out_sel="FIRST_AVAILABLE", in_delay="sym-last", out_delay=0, sym=("iat",))
     C["fanout-sink-fanin"] = dict(n_src=1, n_out=2, n_items=3, w=2, out_cap=1, sink_fanin=True)
@@ -401,9 +408,13 @@ PROPS["C17"] = {
 PROPS["C18"] = {
     "explanation": M2_EXPL + "after finalisation at symbolic T: generated/processed/discarded/received counters equal the ledger counts; every edge's time-averaged occupancy is the opaque quotient "
                    "num/den with den == T and num == the integral of ledger occupancy (sum over items of residence, linear in the symbolic times); total_cycle_time equals the sum of reception - creation; "
-                   "timestamps are non-decreasing along each route.",
-    "jobs": lambda tier: fan_jobs("C18", tier, names=["line-w1", "line-w2-per-item", "line-indelay", "line-zero-iat", "fanin-fa", "fanout-fa", "nb-machine-fa", "nb-source-idx", "idx-out", "rr-out"], extra_kw={"until": "sym"}),
-    "required_witnesses": ["C18:counters-checked", "C18:cycle-time-checked", "C18:time-average-checked"],
+                   "timestamps are non-decreasing along each route. Buffer, Fleet and continuous-conveyor edges; the statistic is read twice for the same end time (must not change), and in the "
+                   "two-stage jobs the simulation is continued after the first reading to a second symbolic end time where everything is checked again.",
+    "jobs": lambda tier: fan_jobs("C18", tier, names=["line-w1", "line-w2-per-item", "line-indelay", "line-zero-iat", "fanin-fa", "fanout-fa", "nb-machine-fa", "nb-source-idx", "idx-out", "rr-out",
+                                                      "line-fleet-out", "line-cconv-in", "line-cconv-out"], extra_kw={"until": "sym"}) + [
+        dict(j, name=j["name"] + "/two-stage") for j in fan_jobs("C18", tier, names=["line-w1", "fanout-fa", "line-fleet-out", "line-cconv-in", "line-cconv-out"],
+                                                                 extra_kw={"until": "sym", "two_stage": True}, budget=20 if tier == "quick" else 90)],
+    "required_witnesses": ["C18:counters-checked", "C18:cycle-time-checked", "C18:time-average-checked", "two-stage-finalisation"],
     "nontrivial_witnesses": ["complete"],
     "twin": lambda tier: ("vfy.m2s", "fan", dict(props=("C18",), n_src=1, n_out=1, n_items=1, until="sym", twin=True)),
     "bounds": {"quick": "as C17", "thorough": "as C17"},
@@ -518,6 +529,7 @@ def pk_cfgs(tier):
     C["r12"] = dict(recipe=(1, 2), n_pallets=2)
     C["r111"] = dict(recipe=(1, 1, 1), n_pallets=2, sym=("ii", "pd"))
     C["r12-cap1"] = dict(recipe=(1, 2), n_pallets=2, item_cap=1, sym=("ii", "pd"))
+    C["r101-zero-quantity"] = dict(recipe=(1, 0, 1), n_pallets=2, sym=("ii", "pd"))
     C["r11-rr2"] = dict(recipe=(1, 1), n_pallets=2, split_out=2, split_sel="ROUND_ROBIN", sym=("ii", "pd"))
     C["r11-rr2-blocked"] = dict(recipe=(1, 1), n_pallets=2, split_out=2, split_sel="ROUND_ROBIN", sym=("ii", "pd", "sd"), out_delay="sym")
     C["r12-fa2"] = dict(recipe=(1, 2), n_pallets=2, split_out=2, sym=("ii", "pd"), out_delay="sym")
